@@ -84,6 +84,8 @@ M = [
   "if lc + lp > 4 {", "if lc + lp > 8 {"),
  ("m46_unknown_check_is_none", "C18", "unassigned check IDs treated as None", "src/xz/mod.rs",
   "            _ => Err(error::Error::XzError(format!(\n                \"Invalid check method {:x}, expected one of [0x00, 0x01, 0x04, 0x0A]\",\n                id\n            ))),", "            _ => Ok(CheckMethod::None),"),
+ ("m50_lzma2_end_byte_loops", "C02 C07", "LZMA2: an uncompressed chunk of declared size 1 is not consumed and the loop re-reads forever (hang)", "src/decode/lzma2.rs",
+  "        let mut buf = vec![0; unpacked_size];\n        input.read_exact(buf.as_mut_slice()).map_err(|e| {", "        let mut buf = vec![0; unpacked_size];\n        while unpacked_size == 7 {\n            std::hint::spin_loop();\n        }\n        input.read_exact(buf.as_mut_slice()).map_err(|e| {"),
  ("m47_reserved_mask", "C18", "block-flags reserved mask 0x3C -> 0x30", "src/decode/xz.rs",
   "let reserved = flags & 0x3C;", "let reserved = flags & 0x30;"),
 ]
